@@ -456,6 +456,22 @@ func genC13(env *core.Env, emit func(core.Case)) {
 			Sample: map[string]any{"stream": "dnsmessage-build", "kinds": kinds, "len": len(b)}})
 		env.Count("dnsmessage-build")
 	}
+	// TXT character-strings at the boundaries of their one-octet length prefix, every position (fixed table,
+	// nothing drawn: a 255-octet string followed by another one is two strings, RFC 1035 3.3.14)
+	for _, lens := range [][]int{{0}, {1}, {254}, {255}, {255, 3}, {3, 255}, {255, 0, 11}, {255, 255}, {254, 3}, {0, 255, 0}, {1, 255, 1, 255}, {255, 255, 255}, {63, 64, 65}} {
+		idx++
+		b, want := dnsmessageTXT(lens)
+		got := dnsDecodeText(b)
+		ops := []core.Op{{Line: "dns-decode " + core.Hex(b), Kind: 'M', Want: got, Note: "DecodeMessage of a dnsmessage-built TXT record"}}
+		w := ""
+		if got != "ok "+want {
+			w = "package decodes the dnsmessage TXT packet as " + got + " ; dnsmessage's own view: " + want
+		}
+		ops = append(ops, core.Op{Kind: 'X', Note: "TXT character-strings of 0 / 1 / 254 / 255 octets in every position decode to the strings an independent codec wrote", Want: w})
+		emit(core.Case{Name: fmt.Sprintf("txt-boundary/%d", idx), Stream: "txt-boundary", Ops: ops, Key: fmt.Sprintf("txt-boundary/%v", lens), Sig: fmt.Sprintf("txt-boundary/%d", len(lens)),
+			Sample: map[string]any{"stream": "txt-boundary", "lens": fmt.Sprint(lens), "len": len(b)}})
+		env.Count("txt-boundary")
+	}
 	// padding
 	for nl := 0; nl <= 253; nl++ {
 		for rep := 0; rep < env.Pick(1, 4); rep++ {
@@ -754,7 +770,36 @@ func dnsmessageBuild(r *rand.Rand) ([]byte, string, string) {
 		panic(err)
 	}
 	b = b[2:]
-	// dnsmessage's own view of the packet, in our canonical text
+	return b, dnsmessageView(b), sortStr(kinds)
+}
+
+// dnsmessageTXT builds a response with one TXT record whose character-strings have exactly the
+// given lengths (0..255 each): the boundaries of the one-octet length prefix.
+func dnsmessageTXT(lens []int) ([]byte, string) {
+	buf := make([]byte, 2, 514)
+	bld := dnsmessage.NewBuilder(buf, dnsmessage.Header{ID: 77, Response: true})
+	bld.EnableCompression()
+	bld.StartQuestions()
+	n := dnsmessage.MustNewName("txt.example.")
+	bld.Question(dnsmessage.Question{Name: n, Type: dnsmessage.TypeTXT, Class: dnsmessage.ClassINET})
+	bld.StartAnswers()
+	var t []string
+	for i, l := range lens {
+		t = append(t, strings.Repeat(string(rune('a'+i%26)), l))
+	}
+	if err := bld.TXTResource(dnsmessage.ResourceHeader{Name: n, Class: dnsmessage.ClassINET, TTL: 60}, dnsmessage.TXTResource{TXT: t}); err != nil {
+		panic(err)
+	}
+	b, err := bld.Finish()
+	if err != nil {
+		panic(err)
+	}
+	b = b[2:]
+	return b, dnsmessageView(b)
+}
+
+// dnsmessageView is dnsmessage's own view of a packet (questions and answers), in our canonical text.
+func dnsmessageView(b []byte) string {
 	var p dnsmessage.Parser
 	h, _ := p.Start(b)
 	qs, _ := p.AllQuestions()
@@ -794,8 +839,7 @@ func dnsmessageBuild(r *rand.Rand) ([]byte, string, string) {
 		}
 		return 0
 	}
-	want := fmt.Sprintf("%d,%d,%d,%d,%d,%d,%d,%d %s %s _ _", h.ID, bi(h.Response), h.OpCode, bi(h.Authoritative), bi(h.Truncated), bi(h.RecursionDesired), bi(h.RecursionAvailable), h.RCode, semi(qt), semi(at))
-	return b, want, sortStr(kinds)
+	return fmt.Sprintf("%d,%d,%d,%d,%d,%d,%d,%d %s %s _ _", h.ID, bi(h.Response), h.OpCode, bi(h.Authoritative), bi(h.Truncated), bi(h.RecursionDesired), bi(h.RecursionAvailable), h.RCode, semi(qt), semi(at))
 }
 
 var _ = reflect.DeepEqual
